@@ -7,6 +7,7 @@ import (
 	"runtime/debug"
 	"strings"
 	"sync"
+	"sync/atomic"
 	"time"
 
 	fpgo "github.com/TeaEntityLab/fpGo/v2"
@@ -486,8 +487,130 @@ func c08Phased(id string, workers, each int, queueFirst bool, seed int64) core.S
 	}}
 }
 
+// a wrapped structure that fails now and then (a user queue with a bug, a ChannelQueue closed by its owner: its Offer
+// panics): the failing call panics in ITS caller, every other call goes on behaving as if executed one at a time
+type c08Faulty struct {
+	c08Slice
+	calls, failAt int
+}
+
+func (q *c08Faulty) Offer(v int64) error {
+	q.calls++
+	if q.calls == q.failAt {
+		panic("injected fault in the wrapped queue")
+	}
+	return q.c08Slice.Offer(v)
+}
+func (q *c08Faulty) Put(v int64) error { return q.Offer(v) }
+func (q *c08Faulty) Push(v int64) error {
+	q.calls++
+	if q.calls == q.failAt {
+		panic("injected fault in the wrapped stack")
+	}
+	return q.c08Slice.Push(v)
+}
+
+func c08FaultyWrapped(id string, kind int, seed int64) core.Scenario {
+	return core.Scenario{ID: id, Class: "ConcurrentQueue/Stack.faulty", Run: func(c *core.Ctx) {
+		c.Eval(1)
+		c.Distinct(id)
+		var offer func(v int64) error
+		var take func() (int64, error)
+		name := ""
+		switch kind {
+		case 0:
+			q := fpgo.NewConcurrentQueue[int64](&c08Faulty{failAt: 5 + int(seed%20)})
+			offer, take, name = q.Offer, q.Poll, "ConcurrentQueue(user queue whose Offer panics once)"
+		case 1:
+			s := fpgo.NewConcurrentStack[int64](&c08Faulty{failAt: 5 + int(seed%20)})
+			offer, take, name = s.Push, s.Pop, "ConcurrentStack(user stack whose Push panics once)"
+		default:
+			ch := fpgo.NewChannelQueue[int64](64)
+			q := fpgo.NewConcurrentQueue[int64](ch)
+			n := 0
+			var mu sync.Mutex
+			offer = func(v int64) error {
+				mu.Lock()
+				n++
+				if n == 10 {
+					close(ch) // the owner closes the wrapped channel queue: later Offers panic inside the wrapped structure
+				}
+				mu.Unlock()
+				return q.Offer(v)
+			}
+			take, name = q.Poll, "ConcurrentQueue(ChannelQueue closed by its owner after 10 Offers)"
+		}
+		const workers, each = 4, 40
+		var accepted, removed sync.Map
+		var panicked atomic.Int32
+		var wg sync.WaitGroup
+		for w := 0; w < workers; w++ {
+			wg.Add(1)
+			go func(w int) {
+				defer wg.Done()
+				for k := 1; k <= each; k++ {
+					v := hist.Value(w+1, k)
+					if pv, _ := core.Catch(func() {
+						if offer(v) == nil {
+							accepted.Store(v, true)
+						}
+					}); pv != nil {
+						panicked.Add(1)
+					}
+					if k%3 == 0 {
+						core.Catch(func() {
+							if x, err := take(); err == nil {
+								removed.Store(x, true)
+							}
+						})
+					}
+				}
+			}(w)
+		}
+		done := make(chan struct{})
+		go func() {
+			wg.Wait()
+			core.Catch(func() {
+				for k := 0; k < workers*each+4; k++ {
+					x, err := take()
+					if err != nil {
+						break
+					}
+					removed.Store(x, true)
+				}
+			})
+			close(done)
+		}()
+		v, dump := core.AwaitOrStuck(done, 2*time.Second, 60*time.Second, func() int64 { return 0 })
+		if v == "stuck" {
+			c.Violationf("faulty-wrapped:wrapper-unusable-after-a-panic", map[string]any{"scenario": id, "target": name, "goroutines": core.RepoGoroutineSummary(dump)},
+				"%s: after %d calls panicked inside the wrapped structure (in their own callers), the other callers never return: the wrapper is blocked for good", name, panicked.Load())
+			return
+		}
+		if v != "done" {
+			c.Inconclusive("watchdog in " + id)
+			return
+		}
+		if kind < 2 {
+			lost := 0
+			accepted.Range(func(k, _ any) bool {
+				if _, ok := removed.Load(k); !ok {
+					lost++
+				}
+				return true
+			})
+			if lost > 0 {
+				c.Violationf("faulty-wrapped:lost", map[string]any{"scenario": id, "target": name}, "%s: %d accepted values were never returned by the drain", name, lost)
+			}
+		}
+	}}
+}
+
 func c08Scenarios(c *core.Ctx, race bool) []core.Scenario {
 	var out []core.Scenario
+	for i := 0; i < c.Pick(9, 45); i++ {
+		out = append(out, c08FaultyWrapped(fmt.Sprintf("faulty-%d-race%v", i, race), i%3, c.Seed+int64(i)))
+	}
 	out = append(out, c08Instantiations(fmt.Sprintf("instantiations-race%v", race)))
 	for i := 0; i < c.Pick(40, 400); i++ {
 		out = append(out, c08Phased(fmt.Sprintf("phased-%d-race%v", i, race), 1+i%4, 2+i%7, i%2 == 0, c.Seed*5+int64(i)))
@@ -548,7 +671,7 @@ func init() {
 		Meta: func(c *core.Ctx) core.Meta {
 			return core.Meta{
 				Level: "exploration",
-				Rule:  "concurrent histories recorded at the client boundary (call before / return after, one monotonic clock, unique values = producer<<32|seq) against ConcurrentQueue and ConcurrentStack wrapping LinkedListQueue, ChannelQueue(3) (Offer/Poll), BufferedChannelQueue(2,6) (Offer/Poll, relaxed model; a drain that sees empty while the wrapped queue still holds values for 1 s is a violation) a harness-provided non-thread-safe slice queue/stack and a user queue that embeds ChannelQueue(4) and adds an unsynchronised overflow slice; one LinkedListQueue behind BOTH wrappers in non-overlapping queue / stack phases; six other instantiations alive in one process (interface element types any / error / fmt.Stringer, *struct, func); 1..16 producers x 1..16 consumers, PRNG yields; short histories (<= 40 ops, mixed roles) are checked for linearizability with porcupine against FIFO / LIFO / BoundedFIFO models after a single-threaded drain; long runs by the exactly-once / no-invention / per-producer-order checker; phased bursts (backlogs 1100..12000 built by 1 or 4 producers, removed completely by 1 or 4 consumers, then quiescent probes, 4-8 rounds, GC paused so that recycled nodes stay pooled); every call under recover; the same workload repeated in the -race build (deciding). distinct_nontrivial = distinct scenarios (workload seeds)",
+				Rule:  "concurrent histories recorded at the client boundary (call before / return after, one monotonic clock, unique values = producer<<32|seq) against ConcurrentQueue and ConcurrentStack wrapping LinkedListQueue, ChannelQueue(3) (Offer/Poll), BufferedChannelQueue(2,6) (Offer/Poll, relaxed model; a drain that sees empty while the wrapped queue still holds values for 1 s is a violation) a harness-provided non-thread-safe slice queue/stack and a user queue that embeds ChannelQueue(4) and adds an unsynchronised overflow slice; one LinkedListQueue behind BOTH wrappers in non-overlapping queue / stack phases; wrapped structures that panic once (injected fault in a user queue / stack, a ChannelQueue closed by its owner): the other callers must go on; six other instantiations alive in one process (interface element types any / error / fmt.Stringer, *struct, func); 1..16 producers x 1..16 consumers, PRNG yields; short histories (<= 40 ops, mixed roles) are checked for linearizability with porcupine against FIFO / LIFO / BoundedFIFO models after a single-threaded drain; long runs by the exactly-once / no-invention / per-producer-order checker; phased bursts (backlogs 1100..12000 built by 1 or 4 producers, removed completely by 1 or 4 consumers, then quiescent probes, 4-8 rounds, GC paused so that recycled nodes stay pooled); every call under recover; the same workload repeated in the -race build (deciding). distinct_nontrivial = distinct scenarios (workload seeds)",
 				Assumptions: []string{"a race report inside the wrapped structure or the wrapper refutes the property (the baseline wrapper is expected to serialise every access)",
 					"ChannelQueue is wrapped through Offer/Poll only (its blocking Put/Take under the wrapper's lock are documented as blocking)"},
 			}
